@@ -70,6 +70,11 @@ def run(ctx):
             elif not s["freeze"] and s["ty"] != "tracing_core::callsite::DefaultCallsite":
                 ctx.violation("C17.statics", f"C17.statics:{s['path']}", f"{s['span'][0]}:{s['span'][1]}", f"static with interior mutability: {s['ty']}")
     ctx.ok("C17.statics", "C17.statics:scan", "", f"{n} statics")
+    from . import controls
+    controls.sites(ctx, "C17.sites")
+    controls.recursion(ctx, "C17.recursion")
+    controls.loops(ctx, "C17.loops")
+    controls.statics(ctx, "C17.statics")
     ctx.assumptions += ["panics inside dependencies on values ruma passes them are out of scope except where a reviewed entry says why they cannot occur",
                         "reviewed reasons in spec/panic_allow.json are human judgement (one line each, exact keys)"]
     ctx.samples += [{"site": "ruma_identifiers_validation::key_id::validate narrowing cast", "status": "removed by fix 19b222b; a new `as u8` without a dominating bound is reported"},
